@@ -121,7 +121,13 @@ def render(files, root):
         path = os.path.join(root, name)
         os.makedirs(os.path.dirname(path), exist_ok=True)
         with open(path, "w") as f:
-            f.write("\n---\n".join(json.dumps(d, ensure_ascii=False) for d in docs) + "\n")
+            # a document that declares nothing is written as an empty map, as nothing at all, or as a comment: all three are
+            # documents (they count for the numbering of the documents of a file)
+            def txt(i, d):
+                if d == {} and i % 3 == 1: return ""
+                if d == {} and i % 3 == 2: return "# nothing here"
+                return json.dumps(d, ensure_ascii=False)
+            f.write("\n---\n".join(txt(i, d) for i, d in enumerate(docs)) + "\n")
 
 def argv(c):
     a = []
